@@ -430,3 +430,27 @@ def explore(run, kinds):
                      "lossy": s["evals"] - s["cleared"], "cleared_and_executed": s["cleared"]}
                     for s in allstats[:: max(1, len(allstats) // 6)]][:8],
     }
+
+
+def replay(path, prop):
+    """Re-run exactly one (instance, value) stand-alone; exit 1 iff the violation reproduces."""
+    r = json.load(open(path))
+    t, n, d = r["instance"]["T"], int(r["instance"]["N"]), int(r["instance"]["D"])
+    x = int(r["value"])
+    run = core.Run(prop, "quick", "exploration")
+    run.wd = os.path.join(core.BUILD, prop, "replay")
+    os.makedirs(run.wd, exist_ok=True)
+    kinds = C03_KINDS if prop == "C03" else C04_KINDS
+    san = ["-fsanitize=undefined,unsigned-integer-overflow,implicit-conversion",
+           "-fsanitize-recover=all", "-fno-sanitize=implicit-integer-sign-change"]
+    hits = []
+    for cfg, fl, tag in ((core.GXX14, [], "rp"), (core.CLANG14, san, "rpsan")):
+        s, v = build_and_run(run, cfg, tag, [(0, t, n, d)], {0: [(x, x)]}, fl, nsplit=1)
+        hits += [dict(z, build=str(cfg)) for z in v if z["kind"] in kinds]
+    for h in hits:
+        print("reproduced:", json.dumps(h))
+    if hits:
+        print("VIOLATION property=%s replay=%s" % (prop, path))
+        return 1
+    print("not reproduced on the current tree: %s x=%d factor=%d/%d" % (t, x, n, d))
+    return 0
